@@ -2,12 +2,15 @@ package props
 
 import (
 	"fmt"
+	"strconv"
 	"strings"
 
 	"github.com/hashicorp/hcl-lang/lang"
 	"github.com/hashicorp/hcl-lang/schema"
 	"github.com/hashicorp/hcl/v2"
+	"github.com/hashicorp/hcl/v2/ext/typeexpr"
 	"github.com/hashicorp/hcl/v2/hclsyntax"
+	"github.com/zclconf/go-cty/cty"
 
 	"verif/internal/explore"
 	"verif/internal/model"
@@ -42,7 +45,8 @@ func c12Exact(cx *explore.Ctx, q run.Query, r run.Result, body *hclsyntax.Body) 
 			add("hover:range", site, fmt.Sprintf("range %s, expected the %s's %s", fmtRange(hd.Range), site, fmtRange(rng)))
 		}
 		for _, m := range must {
-			if m != "" && !strings.Contains(hd.Content.Value, m) {
+			// (a label value is shown quoted: characters Go's %q escapes, e.g. a no-break space, appear escaped)
+			if m != "" && !strings.Contains(hd.Content.Value, m) && !strings.Contains(hd.Content.Value, strings.Trim(strconv.Quote(m), `"`)) {
 				add("hover:content", site, fmt.Sprintf("content %q does not carry %q", hd.Content.Value, m))
 			}
 		}
@@ -73,6 +77,7 @@ func c12Exact(cx *explore.Ctx, q run.Query, r run.Result, body *hclsyntax.Body) 
 			if hd != nil && bc.Eff.AttrKnown(name) {
 				if as, ok := bc.Eff.Attributes[name]; ok {
 					c12ObjectKeys(cx, q, hd, a, as.Constraint)
+					c12TypeDecl(cx, q, hd, a, as.Constraint)
 				}
 				er := a.Expr.Range()
 				if hd.Range.Start.Byte < er.Start.Byte || hd.Range.End.Byte > er.End.Byte {
@@ -179,4 +184,62 @@ func c12ObjectKeys(cx *explore.Ctx, q run.Query, hd *lang.HoverData, attr *hclsy
 			return
 		}
 	}
+}
+
+// c12TypeDecl: under a TypeDeclaration constraint a hover whose range is exactly one sub-expression describes
+// the type that sub-expression declares: nothing that is no type (an unknown keyword) is described as one, and
+// the key of an object type item names the type written as its value (optional(...) looked through).
+func c12TypeDecl(cx *explore.Ctx, q run.Query, hd *lang.HoverData, attr *hclsyntax.Attribute, cons schema.Constraint) {
+	if _, ok := cons.(schema.TypeDeclaration); !ok || hd == nil {
+		return
+	}
+	prim := func(t cty.Type) string {
+		switch t {
+		case cty.String:
+			return "string"
+		case cty.Number:
+			return "number"
+		case cty.Bool:
+			return "bool"
+		}
+		return ""
+	}
+	report := func(clause, detail string) {
+		v := witness(cx, "sweep", q)
+		v.Clause = clause
+		v.Site = "type-declaration"
+		v.Detail = fmt.Sprintf("%s: %s\nfile:\n%s", q, detail, cx.Case.Text)
+		cx.C.Add(v)
+	}
+	_ = hclsyntax.VisitAll(attr.Expr, func(n hclsyntax.Node) hcl.Diagnostics {
+		switch x := n.(type) {
+		case *hclsyntax.ScopeTraversalExpr:
+			if x.Range() == hd.Range {
+				cx.L.Count("type_declaration_hovers", 1)
+				if _, d := typeexpr.TypeConstraint(x); d.HasErrors() {
+					report("hover:describes-what-is-no-type", fmt.Sprintf("%q is no type keyword but hover describes it as %q", string(x.Range().SliceBytes(cx.Src)), hd.Content.Value))
+				}
+			}
+		case *hclsyntax.ObjectConsExpr:
+			for _, it := range x.Items {
+				// (the hover of a key covers the whole item)
+				if hcl.RangeBetween(it.KeyExpr.Range(), it.ValueExpr.Range()) != hd.Range || !(it.KeyExpr.Range().Start.Byte <= q.Pos.Byte && q.Pos.Byte < it.KeyExpr.Range().End.Byte) {
+					continue
+				}
+				ve := it.ValueExpr
+				if fc, ok := ve.(*hclsyntax.FunctionCallExpr); ok && fc.Name == "optional" && len(fc.Args) >= 1 {
+					ve = fc.Args[0]
+				}
+				t, d := typeexpr.TypeConstraint(ve)
+				if d.HasErrors() {
+					continue
+				}
+				cx.L.Count("type_declaration_hovers", 1)
+				if name := prim(t); name != "" && !strings.Contains(hd.Content.Value, name) {
+					report("hover:object-type-item-names-other-type", fmt.Sprintf("the item's value declares %s but hover on its key says %q", name, hd.Content.Value))
+				}
+			}
+		}
+		return nil
+	})
 }
